@@ -13,6 +13,7 @@ package main
 
 import (
 	"bytes"
+	"encoding/binary"
 	"fmt"
 	"net"
 	"os"
@@ -79,6 +80,7 @@ type netlab struct {
 	srcMAC  net.HardwareAddr // MAC of veth0 (what sx uses as source)
 	mu      sync.Mutex
 	frames  [][]byte
+	stamps  []int64 // kernel receive timestamp of each frame (SO_TIMESTAMPNS, ns since the epoch)
 	stop    chan struct{}
 	done    chan struct{}
 }
@@ -105,6 +107,7 @@ func newNetlab() *netlab {
 		panic(err)
 	}
 	syscall.SetsockoptInt(fd, syscall.SOL_SOCKET, 33 /* SO_RCVBUFFORCE */, 256<<20)
+	syscall.SetsockoptInt(fd, syscall.SOL_SOCKET, 35 /* SO_TIMESTAMPNS */, 1)
 	tv := syscall.Timeval{Usec: 20000}
 	syscall.SetsockoptTimeval(fd, syscall.SOL_SOCKET, syscall.SO_RCVTIMEO, &tv)
 	n := &netlab{fd: fd, ifindex: ifi.Index, srcMAC: net.HardwareAddr{2, 0, 0, 0, 0, 1},
@@ -118,23 +121,35 @@ func newNetlab() *netlab {
 func (n *netlab) capture() {
 	defer close(n.done)
 	buf := make([]byte, 1<<16)
+	oob := make([]byte, 256)
 	for {
 		select {
 		case <-n.stop:
 			return
 		default:
 		}
-		k, from, err := syscall.Recvfrom(n.fd, buf, 0)
+		k, oobn, _, from, err := syscall.Recvmsg(n.fd, buf, oob, 0)
 		if err != nil || k <= 0 {
 			continue
 		}
 		if ll, ok := from.(*syscall.SockaddrLinklayer); ok && ll.Pkttype == 4 /* PACKET_OUTGOING */ {
 			continue
 		}
+		stamp := time.Now().UnixNano()
+		if msgs, err := syscall.ParseSocketControlMessage(oob[:oobn]); err == nil {
+			for _, m := range msgs {
+				if m.Header.Level == syscall.SOL_SOCKET && m.Header.Type == 35 && len(m.Data) >= 16 {
+					sec := int64(binary.LittleEndian.Uint64(m.Data[0:8]))
+					nsec := int64(binary.LittleEndian.Uint64(m.Data[8:16]))
+					stamp = sec*1e9 + nsec
+				}
+			}
+		}
 		f := make([]byte, k)
 		copy(f, buf[:k])
 		n.mu.Lock()
 		n.frames = append(n.frames, f)
+		n.stamps = append(n.stamps, stamp)
 		n.mu.Unlock()
 	}
 }
@@ -144,8 +159,24 @@ func (n *netlab) take() [][]byte {
 	n.mu.Lock()
 	defer n.mu.Unlock()
 	f := n.frames
-	n.frames = nil
+	n.frames, n.stamps = nil, nil
 	return f
+}
+
+// takeStamped returns (and forgets) the frames captured so far with their kernel receive timestamps
+func (n *netlab) takeStamped() ([][]byte, []int64) {
+	n.mu.Lock()
+	defer n.mu.Unlock()
+	f, t := n.frames, n.stamps
+	n.frames, n.stamps = nil, nil
+	return f, t
+}
+
+// peek returns a copy of the current capture without forgetting it
+func (n *netlab) peek() ([][]byte, []int64) {
+	n.mu.Lock()
+	defer n.mu.Unlock()
+	return append([][]byte(nil), n.frames...), append([]int64(nil), n.stamps...)
 }
 
 func (n *netlab) count() int {
